@@ -313,6 +313,9 @@ def cmpOption (c : α → α → Ordering) : Option α → Option α → Orderin
   | some _, none => .gt
   | some a, some b => c a b
 
+/-- the order of the unsigned integers -/
+def natCmp (a b : Nat) : Ordering := compare a b
+
 def cmpBool : Bool → Bool → Ordering
   | false, true => .lt
   | true, false => .gt
